@@ -251,6 +251,10 @@ class Unit:
             # check that dimensions is valid
             if dimensions is not None:
                 _validate_dimensions(dimensions)
+            # the caller supplied the unit data, so this object does not
+            # necessarily reflect what the string means in the registry:
+            # it must not be served to later lookups of the same string
+            unit_cache_key = None
         else:
             # lookup the unit symbols
             unit_data = _get_unit_data_from_expr(unit_expr, registry.lut)
